@@ -85,11 +85,15 @@ PROPS["C13"] = dict(
           "parsed into (rune, attributes) cells by an independent SGR emulator and compared by the per-function validity predicates of "
           "DESIGN.md C13. Non-trivial: the case exercises at least one of the classes word-longer-than-width, space-run, explicit "
           "newline, paragraph-longer-than-width, line-extended, multi-line indent, snip cut/made-room/dropped-blank-line, setlength "
-          "cut/padded. Distinct = distinct (op, tree, width, height, prefix)."),
+          "cut/padded. (Enum) every text over {a, bold b, space, NBSP, newline} up to length 6 (thorough: 8) at every width 1..4 "
+          "through Wrap, DumbWrap, Pad and Snip (heights 1..3), same predicates — exhaustive within that scope. Distinct = distinct "
+          "(op, tree, width, height, prefix)."),
     units=[
         rapid("Prop", "TestProp", 240000, 8000000),
+        enum("Enum", "TestEnum", shards=(8, 16)),
         fuzz("Fuzz", "FuzzWrap", "120s"),
     ],
+    exhaustive_claim=["Enum"],
     manifest=dict(
         text=("Property-based testing of the six layout functions with cell-level validity predicates (width bound, visible cells "
               "identical and in order, protected line breaks, no break inside a fitting word, exact shapes for hard-wrap/pad/indent, "
@@ -106,13 +110,16 @@ PROPS["C14"] = dict(
     rule=("expression trees (depth <= 5) over the 14 style functions, concatenation and text leaves (with newlines, wide/combining "
           "characters), evaluated by the real style layer and by a cell-level reference semantics; per-character attributes compared "
           "exactly, attribute state required neutral at every line break and at the end; then 0..4 layout operations (Wrap, DumbWrap, "
-          "Pad, Indent, Snip) after each of which the visible cells with their attributes are compared again; (Docs) documents in the "
+          "Pad, Indent, Snip) after each of which the visible cells with their attributes are compared again; (TreeEnum) exhaustively, every "
+          "nesting of up to three of the eight inline styles and every structural helper around every nesting of depth <= 2, over three "
+          "leaves, followed by each single layout operation; (Docs) documents in the "
           "four markups inside posts and profiles, rendered as Render/String/Preview at widths 1..120; (Frames) every frame emitted "
           "while C07's key histories are played — all required neutral at every line end. Non-trivial: tree depth >= 3 with a newline "
           "under >= 2 styles and at least one layout op / document with links rendered narrower than its longest token / history "
           "with more than three frames. Distinct = distinct case."),
     units=[
         rapid("Tree", "TestTree", 120000, 4000000),
+        enum("TreeEnum", "TestTreeEnum"),
         rapid("Docs", "TestDocs", 6000, 200000),
         rapid("Frames", "TestFrames", 800, 40000, shards=(8, 16), config_toml=_NET, timeout=dict(quick=600, thorough=3000)),
     ],
